@@ -149,7 +149,7 @@ Definition pc_task (p : mpc) : option (N * N * nat) :=
 
 Definition tok_db (p : tpc) : option N :=
   match p with
-  | TNext db | TCollect db _ | THandler db _ _ | TFinish db => Some db
+  | TNext db | TCollect db _ | THandler db _ _ | TFinish db _ => Some db
   | _ => None
   end.
 
@@ -213,7 +213,13 @@ Record MInvB (b : N) (s : mstate) : Prop := {
            exists d, In d (m_drains s) /\ d_shard d = N.of_nat k;
   q_shc : m_shclosed s = true -> m_closed s = true;
   q_close : close_inv b s;
-  q_cb : m_cb s <= b }.
+  q_cb : m_cb s <= b;
+  (* after the drain's last empty check nothing of the shard runs any more, and what is queued arrived later *)
+  q_fin : forall k db te, sh_tok (m_sh s k) = TFinish db te ->
+            te <= b /\ (forall r, In r (m_runs s) -> r_shard r = N.of_nat k -> r_b r < te)
+            /\ (forall x e, In (x, e) (sh_queue (m_sh s k)) -> te < e);
+  q_none : forall k, sh_tok (m_sh s k) = TNone -> forall x e, In (x, e) (sh_queue (m_sh s k)) ->
+            forall r, In r (m_runs s) -> r_shard r = N.of_nat k -> r_b r < e }.
 
 Definition MInv (s : mstate) : Prop := MInvB (m_now s) s.
 
@@ -272,6 +278,7 @@ Proof.
     + destruct q_close0 as (A & B & C & ce & D & E & F & G). repeat split; auto.
       exists ce. repeat split; auto; lia.
   - lia.
+  - intros k db te E. destruct (q_fin0 k db te E) as (A & B & C). repeat split; auto; lia.
 Qed.
 
 Lemma inv_tick s : MInv s -> MInvB (m_now s) (m_tick s).
@@ -429,6 +436,14 @@ Proof.
   - intros k0 Hk0. rewrite Hnth. destruct (Nat.eqb_spec k k0) as [E|N0]; [|apply q_ktwo0; exact Hk0].
     unfold new. cbn [sh_tok]. intro E0. destruct (sh_tok old); discriminate.
   - destruct close; auto; destruct q_close0 as (X & _); discriminate.
+  - intros k0 db te. rewrite Hnth. destruct (Nat.eqb_spec k k0) as [E|N0]; [|apply q_fin0].
+    unfold new. cbn [sh_tok sh_queue]. intro E0. subst k0.
+    assert (Eo : sh_tok old = TFinish db te) by (destruct (sh_tok old); try discriminate; exact E0).
+    destruct (q_fin _ _ HI k db te Eo) as (A & B & C). repeat split; auto; try lia.
+    intros x0 e Hin. apply in_app_or in Hin. destruct Hin as [Hin|[E1|[]]]; [apply (C x0 e Hin)|].
+    inversion E1; subst. lia.
+  - intros k0. rewrite Hnth. destruct (Nat.eqb_spec k k0) as [E|N0]; [|apply q_none0].
+    unfold new. cbn [sh_tok]. intro E0. destruct (sh_tok old); discriminate.
 Qed.
 
 (* a drain step that neither consumes nor produces items (sh_items is unchanged) *)
@@ -439,9 +454,12 @@ Lemma inv_sh_same b s k sh' : MInvB b s -> (k < length (m_shards s))%nat ->
      db <= b /\ forall d, In d (m_drains s) -> d_shard d = N.of_nat k -> d_e d < db) ->
   (forall db rb it, sh_tok sh' = THandler db rb it ->
      rb <= b /\ forall r, In r (m_runs s) -> r_shard r = N.of_nat k -> r_e r < rb) ->
+  (forall db te, sh_tok sh' = TFinish db te ->
+     te <= b /\ (forall r, In r (m_runs s) -> r_shard r = N.of_nat k -> r_b r < te)
+     /\ (forall x e, In (x, e) (sh_queue sh') -> te < e)) ->
   MInvB b (m_set_sh s k sh').
 Proof.
-  intros [ ] Hk Hit Hn Ho Hl Hdb Hrb.
+  intros [ ] Hk Hit Hn Ho Hl Hdb Hrb Hfin.
   destruct s as [now closed shclosed shards pcs close cb subs runs drains clos]. unf.
   set (old := nth k shards sh0) in *.
   assert (Hlen : length (set_nth k sh' sh0 shards) = length shards) by (apply length_set_nth; exact Hk).
@@ -470,6 +488,8 @@ Proof.
     intro E0. contradiction.
   - destruct close; auto. destruct q_close0 as (_ & _ & A & _).
     exfalso. apply Ho. apply all_unscheduled_nth. exact A.
+  - intros k0 db te. rewrite Hnth. destruct (Nat.eqb_spec k k0) as [E|N0]; [|apply q_fin0]. subst k0. apply Hfin.
+  - intros k0. rewrite Hnth. destruct (Nat.eqb_spec k k0) as [E|N0]; [|apply q_none0]. intro E0. contradiction.
 Qed.
 
 Definition run_sorted (l : list runr) : Prop :=
@@ -574,11 +594,18 @@ Proof.
   - intros k0 Hk0. rewrite Hnth. destruct (Nat.eqb_spec k k0) as [E|N0]; [discriminate|apply q_ktwo0; exact Hk0].
   - destruct close; auto. destruct q_close0 as (_ & _ & A & _).
     pose proof (all_unscheduled_nth shards k A) as X. fold old in X. rewrite Htok in X. discriminate.
+  - intros k0 db0 te. rewrite Hnth. destruct (Nat.eqb_spec k k0) as [E|N0]; [discriminate|].
+    intro E0. destruct (q_fin0 k0 db0 te E0) as (A & B & C). repeat split; auto.
+    intros r Hr Hs. apply in_app_or in Hr. destruct Hr as [Hr|Hr]; [|apply B; assumption].
+    destruct (HNEW r Hr) as (_ & _ & C' & _). rewrite C' in Hs. apply Nat2N.inj in Hs. contradiction.
+  - intros k0. rewrite Hnth. destruct (Nat.eqb_spec k k0) as [E|N0]; [discriminate|].
+    intros E0 x e Hin r Hr Hs. apply in_app_or in Hr. destruct Hr as [Hr|Hr]; [|apply (q_none0 k0 E0 x e Hin r Hr Hs)].
+    destruct (HNEW r Hr) as (_ & _ & C' & _). rewrite C' in Hs. apply Nat2N.inj in Hs. contradiction.
 Qed.
 
 (* finishShardDrain *)
-Lemma inv_finish b s k db tok' : MInvB b s -> b < m_now s -> (k < length (m_shards s))%nat ->
-  sh_tok (m_sh s k) = TFinish db -> (tok' = TSched \/ tok' = TNone) ->
+Lemma inv_finish b s k db te tok' : MInvB b s -> b < m_now s -> (k < length (m_shards s))%nat ->
+  sh_tok (m_sh s k) = TFinish db te -> (tok' = TSched \/ tok' = TNone) ->
   let s' := m_set_sh s k (Sh (sh_queue (m_sh s k)) tok') in
   MInv (MSt (m_now s') (m_closed s') (m_shclosed s') (m_shards s') (m_pcs s') (m_close s') (m_cb s') (m_subs s')
           (m_runs s') (Drn (N.of_nat k) db (m_now s) :: m_drains s') (m_clos s')).
@@ -630,6 +657,11 @@ Proof.
     + intros E0 Hq. destruct (q_ktwo0 k0 Hk0 E0 Hq) as (d & A & B). exists d. split; [right; exact A|exact B].
   - destruct close; auto. destruct q_close0 as (_ & _ & A & _).
     pose proof (all_unscheduled_nth shards k A) as X. fold old in X. rewrite Htok in X. discriminate.
+  - intros k0 db0 te0. rewrite Hnth. destruct (Nat.eqb_spec k k0) as [E|N0]; [|apply q_fin0].
+    cbn [new sh_tok]. destruct Ht' as [-> | ->]; discriminate.
+  - intros k0. rewrite Hnth. destruct (Nat.eqb_spec k k0) as [E|N0]; [|apply q_none0].
+    subst k0. cbn [new sh_tok sh_queue]. intros _ x e Hin r Hr Hs.
+    destruct (q_fin0 k db te Htok) as (_ & B & C). specialize (B r Hr Hs). specialize (C x e Hin). lia.
 Qed.
 
 (* Close *)
@@ -684,7 +716,7 @@ Proof.
   assert (HM : MInv s1) by (apply (inv_mono (m_now s)); [lia|exact HB]).
   fold s1 in HB. unfold m_tok_step.
   destruct (Nat.ltb_spec k (length (m_shards s1))) as [Hk|Hk]; cbn [negb]; [|exact HM].
-  destruct (sh_tok (m_sh s1 k)) as [| |db|db items|db rb items|db] eqn:Htok; [exact HM| | | | |].
+  destruct (sh_tok (m_sh s1 k)) as [| |db|db items|db rb items|db te] eqn:Htok; [exact HM| | | | |].
   - (* drain starts *)
     apply inv_sh_same; auto; cbn [sh_tok tok_items tok_db length]; try discriminate; try lia.
     + unfold sh_items. cbn [sh_tok sh_queue]. rewrite Htok. reflexivity.
@@ -694,12 +726,21 @@ Proof.
   - (* nextItem *)
     pose proof (q_tok_db _ _ HB k db) as Hdb. rewrite Htok in Hdb. specialize (Hdb eq_refl).
     pose proof (q_dr_active _ _ HB k db) as Hact. rewrite Htok in Hact. specialize (Hact eq_refl).
-    destruct (sh_queue (m_sh s1 k)) as [|it r] eqn:Hq; (apply (inv_mono (m_now s)); [bnd|]);
-      apply inv_sh_same; auto; cbn [sh_tok tok_items tok_db length]; try discriminate; try lia;
-      try (rewrite Htok; discriminate);
-      try (unfold sh_items; cbn [sh_tok sh_queue tok_items]; rewrite Htok, Hq; reflexivity);
-      try (intros db0 E; inversion E; subst; split; assumption).
-    pose proof (mbmax_pos) as X. lia.
+    destruct (sh_queue (m_sh s1 k)) as [|it r] eqn:Hq.
+    + apply inv_sh_same; auto; cbn [sh_tok tok_items tok_db length sh_queue]; try discriminate; try lia.
+      * unfold sh_items. cbn [sh_tok sh_queue tok_items]. rewrite Htok, Hq. reflexivity.
+      * rewrite Htok. discriminate.
+      * intros db0 E. inversion E; subst. split; [unfold MInv; cbn [m_now m_set_sh m_upd]; lia|exact Hact].
+      * intros db0 te E. inversion E; subst. repeat split.
+        -- unfold MInv. cbn [m_now m_set_sh m_upd]. lia.
+        -- intros r0 Hr0 _. destruct (q_runs _ _ HB r0 Hr0) as (X & Y & _). lia.
+        -- intros x e [].
+    + apply (inv_mono (m_now s)); [bnd|].
+      apply inv_sh_same; auto; cbn [sh_tok tok_items tok_db length]; try discriminate; try lia.
+      * unfold sh_items. cbn [sh_tok sh_queue tok_items]. rewrite Htok, Hq. reflexivity.
+      * rewrite Htok. discriminate.
+      * pose proof (mbmax_pos) as X. lia.
+      * intros db0 E; inversion E; subst; split; assumption.
   - (* collectBatch *)
     pose proof (q_tok_db _ _ HB k db) as Hdb. rewrite Htok in Hdb. specialize (Hdb eq_refl).
     pose proof (q_dr_active _ _ HB k db) as Hact. rewrite Htok in Hact. specialize (Hact eq_refl).
@@ -720,7 +761,7 @@ Proof.
       * intros db0 rb0 it0 E. inversion E; subst. split; [unfold MInv; cbn [m_now m_set_sh m_upd]; lia|].
         intros r Hr _. destruct (q_runs _ _ HB r Hr) as (_ & X & _). lia.
   - apply (inv_handler_end (m_now s)); auto.
-  - apply (inv_finish (m_now s)); auto.
+  - apply (inv_finish (m_now s) _ _ db te); auto.
     destruct (negb match sh_queue (m_sh s1 k) with [] => true | _ :: _ => false end && negb (m_shclosed s1) && negb (m_closed s1)); auto.
 Qed.
 
